@@ -11,7 +11,8 @@ off by default) and with the `skipIntegrityCheck` flag, as `readValueAt` is writ
      evaluated for cache hits and misses alike.
 
 The cache is an explicit state: an association list (newest first) of what `Put` stored.
-Capacity and eviction are NOT modelled; the authenticity theorems quantify over EVERY cache
+`TruncateUptoTx` removes the values it made unreadable (`VCache.evictUpto`; before that repair the cache
+kept serving them).  Capacity and the replacement policy are NOT modelled; the authenticity theorems quantify over EVERY cache
 content (so over every eviction policy, and over contents written by lenient callers).
 Core Lean only.
 -/
@@ -29,6 +30,14 @@ def VCache.get (c : VCache) (off : Nat) : Option Bytes := List.lookup off c
 
 /-- `vLogCache.Put(off, cb)`. -/
 def VCache.put (c : VCache) (off : Nat) (v : Bytes) : VCache := (off, v) :: c
+
+/-- `evictCachedValuesUpto(vLogID, offset)`, called by `TruncateUptoTx` right after
+`vlog.DiscardUpto(offset)` while that value log is still held (so no reader can `Put` back a value it
+read before the discard: `readValueAt` holds the log from `ReadAt` to `Put`): every cached value of that
+log stored before the offset is removed.  Keys are encoded offsets, decoded as in `diskRead` (log id in
+bits 56..63, position in the low 55 bits: Go `decodeOffset`). -/
+def VCache.evictUpto (c : VCache) (vlog upto : Nat) : VCache :=
+  c.filter (fun p => !(p.1 / 2 ^ 56 % 256 == vlog && decide (p.1 % 2 ^ 55 < upto)))
 
 /-- Go `copy(b, bval)`: `min(len b, len bval)` bytes are overwritten, `b` keeps its length. -/
 def copyInto (b bval : Bytes) : Bytes := bval.take b.length ++ b.drop bval.length
